@@ -238,6 +238,13 @@ def check(rep, an, tier):
                 if Fax == "#2":
                     CC.dim1(rep, res, ent)
                 CC.corner_map(rep, res, ent)
+                # the vertex set that is sampled is the gamut's: it is not rescaled by a functional of itself (about the origin) on the way
+                for sq in [e_ for e_ in res.events("self_quotient") if e_.fn.cls is not None and "self.A" in e_.d["origins"]][:2]:
+                    rep.violated("R-VALUE", "the sampled vertex set is the gamut's vertex set", where=sq.loc, construct=sq.text()[:80], entry=ent,
+                                 config=res.config,
+                                 msg="the gamut vertices are multiplied by a factor computed from themselves (a stretch about the ORIGIN): with lower "
+                                     "bounds > 0 or a baseline the cone's apex — the capture of the lower bounds — moves, and samples need intensities "
+                                     "below the lower bounds")
                 if l1:
                     CC.zero_rows(rep, res, ent)
                 R.rule_effect_free(rep, res, ent, reg=_reg(an))
@@ -253,6 +260,24 @@ def check(rep, an, tier):
               construct="L1 in cartesian_to_barycentric", entry="cartesian_to_barycentric", config=res.config,
               msg="the total enters the coordinates through the linear map (as an entry of the stacked vector) instead of multiplying its result: "
                   "only the offset term is scaled, the chromaticity of the re-expanded samples is shifted and they leave the gamut for totals ≠ 1")
+    # unbounded sources (ub = inf, the estimator's default) with a requested total: the stand-in vertex set is the cone's generating box
+    for rel in (True, False):
+        kwu = dict(n=intv("n", "NSAMP"), seed=seed_val("int"), engine=none(), relative=flag("relative", rel),
+                   l1=num("l1", U_REL if rel else U_CAPTURE, sign="POS"))
+        resu = an.run(f"{CC.EST}.sample_in_hull", kws=kwu, self_fields=estimator_fields(K="vec", baseline="vec", ub="inf"), spec=spec,
+                      config=f"unbounded sources, l1 given, relative={rel}")
+        entu = "ReceptorEstimator.sample_in_hull[l1=given,ub=inf]"
+        sqs = [e_ for e_ in resu.events("self_quotient") if e_.fn.cls is not None and "self.A" in e_.d["origins"]]
+        for sq in sqs[:2]:
+            rep.violated("R-VALUE", "the sampled vertex set is the gamut's vertex set", where=sq.loc, construct=sq.text()[:80], entry=entu,
+                         config=resu.config,
+                         msg="the gamut vertices are multiplied by a factor computed from themselves (a stretch about the ORIGIN): with lower "
+                             "bounds > 0 or a baseline the cone's apex — the capture of the lower bounds — moves, and samples need intensities "
+                             "below the lower bounds")
+        if not sqs:
+            rep.holds("R-VALUE", "the sampled vertex set is the gamut's vertex set", where=resu.fn.loc(), construct="vertex set of the unbounded system",
+                      entry=entu, config=resu.config)
+        R.rule_purity(rep, resu, entu)
     rep.require("R-SEED", 20)
     rep.require("R-SIMPLEX", 10)
     rep.require("R-API", 5)
